@@ -69,7 +69,7 @@ type Scheduler interface {
 // StdScheduler implements the [Scheduler] interface.
 type StdScheduler struct {
 	mtx sync.RWMutex
-	wg  sync.WaitGroup
+	wg  waitGroup
 
 	interrupt chan struct{}
 	cancel    context.CancelFunc
@@ -337,12 +337,57 @@ func (sched *StdScheduler) Start(ctx context.Context) {
 
 // Wait blocks until the scheduler shuts down.
 func (sched *StdScheduler) Wait(ctx context.Context) {
-	sig := make(chan struct{})
-	go func() { defer close(sig); sched.wg.Wait() }()
 	select {
 	case <-ctx.Done():
-	case <-sig:
+	case <-sched.wg.idle():
 	}
+}
+
+// waitGroup counts the goroutines of the scheduler like a sync.WaitGroup, but
+// can be waited for together with a context. A sync.WaitGroup must not be
+// reused (Add) while a previous Wait call has not returned yet; a Wait whose
+// context expired used to leave such a call behind, and the next Start then
+// panicked with "WaitGroup is reused before previous Wait has returned".
+type waitGroup struct {
+	mtx  sync.Mutex
+	n    int
+	zero chan struct{} // closed when n drops to zero; replaced when n leaves zero
+}
+
+// Add adds delta to the counter.
+func (wg *waitGroup) Add(delta int) {
+	wg.mtx.Lock()
+	defer wg.mtx.Unlock()
+
+	if wg.n == 0 && delta > 0 {
+		wg.zero = make(chan struct{})
+	}
+	wg.n += delta
+	if wg.n < 0 {
+		panic("quartz: negative waitGroup counter")
+	}
+	if wg.n == 0 && wg.zero != nil {
+		close(wg.zero)
+		wg.zero = nil
+	}
+}
+
+// Done decrements the counter by one.
+func (wg *waitGroup) Done() {
+	wg.Add(-1)
+}
+
+// idle returns a channel that is closed once the counter is zero.
+func (wg *waitGroup) idle() <-chan struct{} {
+	wg.mtx.Lock()
+	defer wg.mtx.Unlock()
+
+	if wg.n == 0 {
+		closed := make(chan struct{})
+		close(closed)
+		return closed
+	}
+	return wg.zero
 }
 
 // IsStarted determines whether the scheduler has been started.
